@@ -14,6 +14,7 @@ TOK = re.compile(r"""\s*(?:
     (?P<lit>'(?:\\.|[^'\\])*')|
     (?P<set>~?\[(?:\\.|[^\]\\])*\])|
     (?P<arrow>->)|
+    (?P<opt><[^>\n]*>)|
     (?P<id>[A-Za-z_][A-Za-z_0-9]*)|
     (?P<sym>[:;|()?*+#=~.{}@,])
 )""", re.X | re.S)
@@ -31,7 +32,7 @@ def tokenize(src):
         pos = m.end()
         if m.group('comment'):
             continue
-        for k in ('lit', 'set', 'arrow', 'id', 'sym'):
+        for k in ('lit', 'set', 'arrow', 'opt', 'id', 'sym'):
             if m.group(k):
                 out.append((k, m.group(k)))
                 break
@@ -51,9 +52,14 @@ class Elem(object):
 
 
 class Alt(object):
-    def __init__(self, elems, label):
+    def __init__(self, elems, label, options=None):
         self.elems = elems
         self.label = label
+        self.options = options or []
+
+    @property
+    def right_assoc(self):
+        return any(o.replace(' ', '') == '<assoc=right>' for o in self.options)
 
     def flat(self, optional=False):
         """[(Elem, optional?)] with groups flattened (elements of an optional group are optional)"""
@@ -143,13 +149,14 @@ class Grammar(object):
         alts = []
         cur = []
         label = None
+        opts = []
         while True:
             k, v = toks[i] if i < len(toks) else (None, None)
             if v is None:
                 raise AnalysisError('%s: unterminated rule' % self.path)
             if v in stop or v == '|':
-                alts.append(Alt(cur, label))
-                cur, label = [], None
+                alts.append(Alt(cur, label, opts))
+                cur, label, opts = [], None, []
                 if v in stop:
                     return alts, i
                 i += 1
@@ -157,6 +164,10 @@ class Grammar(object):
             if v == '#':
                 label = toks[i + 1][1]
                 i += 2
+                continue
+            if k == 'opt':
+                opts.append(v)
+                i += 1
                 continue
             if k == 'arrow':
                 # -> skip
